@@ -477,6 +477,60 @@ mod verif_kani_wb {
         encoder_case(false);
     }
 
+    // Block rounding at the boundary: a record whose documented total size is exactly N blocks takes N
+    // blocks (not N+1); one byte more takes N+1; one byte less still N. Concrete sizes, both formats.
+    fn exact_fit_case(v2: bool, value_len: usize, expect_blocks: usize) {
+        let rec = Record::new(vec![7u8, 9u8], vec![0u8; value_len], 5);
+        let io = Arc::new(RwLock::new(mk_io(1, 0, false)));
+        let format: &dyn RecordFormat = if v2 { &FormatV2 } else { &FormatV1 };
+        let data = prepare_record_data(&rec, format, &io).unwrap();
+        assert!(data.len() == expect_blocks * FEOX_BLOCK_SIZE, "extent = documented total size rounded up to whole blocks, never a block more");
+        std::mem::forget(io);
+        std::mem::forget(rec);
+        std::mem::forget(data);
+    }
+
+    #[kani::proof]
+    #[kani::unwind(12)]
+    #[kani::stub(std::vec::Vec::resize, stub_resize)]
+    #[kani::stub(parking_lot::RawRwLock::lock_shared_slow, pl_lock_shared_slow)]
+    #[kani::stub(parking_lot::RawRwLock::lock_exclusive_slow, pl_lock_exclusive_slow)]
+    #[kani::stub(parking_lot::RawRwLock::unlock_shared_slow, pl_unlock_shared_slow)]
+    #[kani::stub(parking_lot::RawRwLock::unlock_exclusive_slow, pl_unlock_exclusive_slow)]
+    #[kani::stub(parking_lot::RawMutex::lock_slow, pl_mutex_lock_slow)]
+    #[kani::stub(parking_lot::RawMutex::unlock_slow, pl_mutex_unlock_slow)]
+    fn record_encoder_exact_fit() {
+        // v2/v3 head with a 2-byte key: 4 + 2 + 2 + 8 + 8 + 8 = 32
+        exact_fit_case(true, FEOX_BLOCK_SIZE - 32, 1);
+    }
+
+    #[kani::proof]
+    #[kani::unwind(12)]
+    #[kani::stub(std::vec::Vec::resize, stub_resize)]
+    #[kani::stub(parking_lot::RawRwLock::lock_shared_slow, pl_lock_shared_slow)]
+    #[kani::stub(parking_lot::RawRwLock::lock_exclusive_slow, pl_lock_exclusive_slow)]
+    #[kani::stub(parking_lot::RawRwLock::unlock_shared_slow, pl_unlock_shared_slow)]
+    #[kani::stub(parking_lot::RawRwLock::unlock_exclusive_slow, pl_unlock_exclusive_slow)]
+    #[kani::stub(parking_lot::RawMutex::lock_slow, pl_mutex_lock_slow)]
+    #[kani::stub(parking_lot::RawMutex::unlock_slow, pl_mutex_unlock_slow)]
+    fn record_encoder_one_past_fit() {
+        exact_fit_case(true, FEOX_BLOCK_SIZE - 32 + 1, 2);
+    }
+
+    #[kani::proof]
+    #[kani::unwind(12)]
+    #[kani::stub(std::vec::Vec::resize, stub_resize)]
+    #[kani::stub(parking_lot::RawRwLock::lock_shared_slow, pl_lock_shared_slow)]
+    #[kani::stub(parking_lot::RawRwLock::lock_exclusive_slow, pl_lock_exclusive_slow)]
+    #[kani::stub(parking_lot::RawRwLock::unlock_shared_slow, pl_unlock_shared_slow)]
+    #[kani::stub(parking_lot::RawRwLock::unlock_exclusive_slow, pl_unlock_exclusive_slow)]
+    #[kani::stub(parking_lot::RawMutex::lock_slow, pl_mutex_lock_slow)]
+    #[kani::stub(parking_lot::RawMutex::unlock_slow, pl_mutex_unlock_slow)]
+    fn record_encoder_exact_fit_v1() {
+        // v1 head with a 2-byte key: 4 + 2 + 2 + 8 + 8 = 24
+        exact_fit_case(false, FEOX_BLOCK_SIZE - 24, 1);
+    }
+
     // ------------------------------------------------------------------ TTL-only rewrite (U13)
     static mut DISK_IMG: [u8; FEOX_BLOCK_SIZE] = [0; FEOX_BLOCK_SIZE];
     static mut DISK_READS: usize = 0;
